@@ -155,7 +155,7 @@ def _task(task):
 def tasks_for(tier, seed):
     quick = tier == 'quick'
     plan = [
-        dict(world=dict(taxonomy='d3_bal', encoding='dense'), flatten=False, drop_level=None),
+        dict(world=dict(taxonomy='d3_len', encoding='dense'), flatten=False, drop_level=None),
         dict(world=dict(taxonomy='d2_bal', encoding='csr', zero_cell=True), flatten=False, drop_level=None),
         dict(world=dict(taxonomy='d3_chain', encoding='csc', n_query=30), flatten=False, drop_level='subclass',
              max_gb=1.0e-7),
